@@ -28,6 +28,22 @@ inline constexpr struct fma {
             }
 #endif
         }
+#if defined(TETL_COMPILER_GCC)
+        else {
+            // GCC folds the builtin to the fused (singly rounded) value whenever the arguments are finite and the
+            // result is representable; x * y + z (two roundings) only serves the remaining arguments
+            if constexpr (is_same_v<Float, float>) {
+                if (__builtin_constant_p(__builtin_fmaf(x, y, z))) {
+                    return __builtin_fmaf(x, y, z);
+                }
+            }
+            if constexpr (is_same_v<Float, double>) {
+                if (__builtin_constant_p(__builtin_fma(x, y, z))) {
+                    return __builtin_fma(x, y, z);
+                }
+            }
+        }
+#endif
 
         return x * y + z;
     }
